@@ -296,7 +296,7 @@ def generate(seed, tier):
         p_refop=sw.pick([0, 0, .1]),
         w_if=sw.pick([0, 2]), w_iferror=sw.pick([0, 1]),
         w_concat=sw.pick([0, 1]), w_istype=sw.pick([0, .7]),
-        w_textfn=sw.pick([0, 0, 1.5]),
+        w_textfn=sw.pick([0, 0, 1.5]), w_engfn=sw.pick([0, 0, .7]),
     )
     world = gen_world(rng, prof)
     if sw.chance(.35):
